@@ -43,7 +43,7 @@ import edlib
 import scen
 
 # (substring of the sanitizer kind, substring of the function) -> proposed patch.  Reports on the *pending probes* only.
-PENDING = [
+REPAIRED_PROBES = [     # found by stage S, repaired in /repo (known_findings.json: fixed); probed on every run, a report is a violation again
     {"kind": "reference binding to null pointer", "fn": "IndexClassification::prepare",
      "probe": "seq index_twice", "patch": "proposed/fix-indexclassification-prepare-twice.diff",
      "what": "IndexClassification::prepare called a second time on the same object doubles IndexSize and dereferences the null IndexInfo pointers of the new cells"},
@@ -54,6 +54,9 @@ PENDING = [
      "probe": "seq vertex 0 1 0 1 1 1 uncomputed", "patch": "proposed/fix-vertex4-uncomputed.diff",
      "what": "Vertex4::operator() before the first compute() calls value() through the storage's null source pointer"},
 ]
+
+# findings waiting for a decision of the main session (none at present)
+PENDING = []
 
 
 def sanitizer_report(err):
@@ -133,7 +136,8 @@ def seq_models(quick):
           ("spinless", SPINLESS, 3), ("two-site", TWO_SITE, 4)]
     if not quick:
         ms += [("atom-default", ATOM_DEFAULT, 2), ("mixed-spin-site-major", MIXED_SPIN % 0, 3), ("two-site-ignore", TWO_SITE_IGNORE, 4),
-               ("atomic-limit", ATOMIC_LIMIT, 4)]
+               ("atomic-limit", ATOMIC_LIMIT, 4), ("two-site-truncated", TWO_SITE + "trunc 0.05\n", 4),
+               ("two-site-truncated-twice", TWO_SITE_IGNORE + "trunc 0.001\ntrunc 0.2\n", 4)]
     return ms
 
 
@@ -441,6 +445,8 @@ def run(chk):
     for (name, text, n) in seq_models(quick):
         R.sequences("S", h17, name, text, seq_lines(n, rng, quick))
     # pending probes (one process each)
+    for p in REPAIRED_PROBES:
+        R.sequences("S", h17, "atom-ignore", ATOM_IGNORE, [p["probe"]])
     for p in PENDING:
         R.sequences("S-pending", h17, "atom-ignore", ATOM_IGNORE, [p["probe"]], pending_ok=True)
 
@@ -495,7 +501,7 @@ def run(chk):
     chk.extra["proof_part"] = {
         "file": "coq/props/Properties_C17.v", "theorems": len(chk.obligations), "discharged": len(chk.discharged),
         "unconditional_about_the_source": [t for t in chk.obligations if t.startswith("source_")],
-        "necessity_witnesses": [t for t in chk.obligations if t.endswith("_oob") or "unguarded" in t or t.endswith("_undefined")],
+        "necessity_witnesses": [t for t in chk.obligations if not t.startswith("source_") and (t.endswith("_oob") or t.endswith("_past_end") or t.endswith("_undefined"))],
         "switches_read_off_the_source": sw,
         "not_covered_by_any_theorem": "Eigen/Boost/MPI internals, object lifetimes, uninitialised reads outside the modelled tables, data races"}
     chk.extra["testing_part"] = {"cases_per_stage": R.stage_counts,
